@@ -107,6 +107,7 @@ def _binary_pairs(part, op, pairs_a, bset, both_orders):
     bbuf = B._buffer
     ref = REF[op]
     impl = IMPL[op]
+    inplace = {'iadd': lambda A, B: A.iadd(B), 'isub': lambda A, B: A.isub(B)}.get(op)
     pack = struct.pack_into
     unpack = struct.unpack_from
     classes = part.classes
@@ -130,6 +131,21 @@ def _binary_pairs(part, op, pairs_a, bset, both_orders):
                                    '%d %s %d left its operands as %d, %d' % (
                                        x, op, y, unpack('<h', abuf)[0], unpack('<h', bbuf)[0]),
                                    {'op': op, 'a': x, 'b': y})
+                if inplace is not None:
+                    # the in-place form used by NEXT: the result lands in the left operand, and an
+                    # operation that raises Overflow leaves it as it was (the statement can be retried)
+                    try:
+                        inplace(A, B)
+                        gi = ('ok', unpack('<h', abuf)[0])
+                    except BASICError as e:
+                        gi = ('err', e.err, unpack('<h', abuf)[0])
+                    ei = exp if exp[0] == 'ok' else (exp[0], exp[1], x)
+                    if gi != ei and not (op == 'isub' and y == -32768):
+                        part.violation('%s/in-place/%s' % (op, 'left-operand-changed-on-error' if gi[0] == 'err' and ei[0] == 'err' else 'wrong'),
+                                       '%d %s %d in place: got %r expected %r' % (x, op, y, gi, ei), {'op': op, 'a': x, 'b': y})
+                    if unpack('<h', bbuf)[0] != y:
+                        part.violation('%s/operand-modified' % op, '%d %s %d in place changed its right operand to %d' % (
+                            x, op, y, unpack('<h', bbuf)[0]), {'op': op, 'a': x, 'b': y})
                 if got != exp:
                     if op == 'mod' and x == -32768 and y == -1 and got in (('ok', 0), ('err', OV)):
                         pass  # statement allows either (see _ref_mod)
@@ -316,6 +332,12 @@ def work_for(shard):
         else:
             ok = (r.err == OV and r.out.replace(b'\r\n', b'').startswith(_fmt(a) + b' '))
             part.classes.add('for-ov' + _sg(st))
+            # the NEXT that failed did not happen: the counter keeps its value
+            r2 = H.run(s, b'PRINT I%')
+            if ok and r2.out.strip() != _fmt(a).strip():
+                part.violation('for/counter-changed-by-failed-next',
+                               'FOR I%%=%d STEP %d: after the Overflow at NEXT the counter reads %r' % (a, st, r2.out),
+                               {'a': a, 'step': st})
         if not ok:
             part.violation(
                 'for/%s' % ('missed-overflow' if not -32768 <= nxt <= 32767 else 'wrong-count'),
